@@ -233,6 +233,28 @@ def rt_scenarios():
     return sc
 
 
+def cycle_scripts(seed, quick):
+    """no descriptor / mapping leak across N cycles (and with a failure somewhere in the middle)"""
+    rng = random.Random(seed * 7 + 1)
+    vm_cycle = []
+    for i in range(12):
+        vm_cycle += [D(65536, 7, 0, tmp=i % 3 == 2), A(16384, 7, 1), RD(0), REL(1)]
+    rt_cycle = [RTNEW(dual=True, fill=True)]
+    for i in range(10):
+        rt_cycle += [ADD(0, 7, i, 300), ADD(1, 1, i + 50, 70000), RREL(0), RREL(1)] + ([RESET_S] if i % 4 == 3 else [])
+    rt_cycle += [RESET_H, ADD(0, 1, 1), DEL]
+    rt_cycle2 = [RTNEW(imm=True)] + rt_cycle[1:]
+    out = []
+    for name, envs, ops in (("c_vm", ["std", "nomemfd", "nomemfd_noexec", "hardened"], vm_cycle), ("c_rt", ["std", "nomemfd", "hardened"], rt_cycle),
+                            ("c_rt_imm", ["std"], rt_cycle2)):
+        for env in envs:
+            out.append({"x": f"{name}/{env}", "env": ENVS[env], "fail": [], "ops": ops})
+            for j in range(3 if quick else 12):
+                out.append({"x": f"{name}+f{j}/{env}", "env": ENVS[env], "fail": [[rng.randint(1, 120), rng.choice(["ENOMEM", "EMFILE", "EINVAL", "EEXIST"])]],
+                            "sticky": j % 3 == 2, "ops": ops})
+    return out
+
+
 def systematic_scripts(quick):
     scripts = []
     for group in (vm_scenarios(), rt_scenarios()):
@@ -500,12 +522,18 @@ def trace_negative_controls(ctx, bdir):
         return out
     variants = [execs[0], [dict(base[0], x="neg_none/std")] + base[1:]]
     # (b) a recorded execution with one event removed / one field changed
-    variants.append(mutate("lost_munmap", lambda r, d: None if (not d and r.get("fn") == "munmap" and r.get("n") == 65536) else r))
-    variants.append(mutate("lost_close", lambda r, d: None if (not d and r.get("fn") == "close") else r))
-    variants.append(mutate("wrong_base", lambda r, d: dict(r, base=r["qrw"]) if (r.get("e") == "RtRet" and r.get("api") == "add") else r))
-    variants.append(mutate("wrong_prot", lambda r, d: dict(r, prot=7) if (not d and r.get("fn") == "mmap" and r.get("prot") == 5 and r.get("n") == 65536) else r))
-    variants.append(mutate("no_flush", lambda r, d: None if (r.get("e") == "Flush" and r.get("n", 0) < 4096) else r))
-    variants.append(mutate("crash", lambda r, d: {"e": "ABORT", "why": "signal 11"} if (not d and r.get("e") == "VmRet" and r.get("api") == "dual") else r))
+    muts = [("lost_munmap", lambda r, d: None if (not d and r.get("fn") == "munmap" and r.get("n") == 65536) else r),
+            ("lost_close", lambda r, d: None if (not d and r.get("fn") == "close") else r),
+            ("wrong_base", lambda r, d: dict(r, base=r["qrw"]) if (r.get("e") == "RtRet" and r.get("api") == "add") else r),
+            ("wrong_prot", lambda r, d: dict(r, prot=7) if (not d and r.get("fn") == "mmap" and r.get("prot") == 5 and r.get("n") == 65536) else r),
+            ("no_flush", lambda r, d: None if (r.get("e") == "Flush" and r.get("n", 0) < 4096) else r),
+            ("crash", lambda r, d: {"e": "ABORT", "why": "signal 11"} if (not d and r.get("e") == "VmRet" and r.get("api") == "dual") else r)]
+    failed = []
+    for name, fn in muts:
+        try:
+            variants.append(mutate(name, fn))
+        except Broken as ex:
+            failed.append(str(ex))
     norm = ctx.path("negctl_norm.ndjson")
     res = []
     for v in variants:
@@ -513,6 +541,12 @@ def trace_negative_controls(ctx, bdir):
     vlib.write_ndjson(norm, res)
     n, rej = validate(ctx, norm, "negctl", timeout=300)
     rejected = {d["x"] for d in rej}
+    if "neg_none/std" in rejected:
+        # the unmodified execution of the real code is itself rejected: that is a verdict about the code, not about the controls
+        report(ctx, [dict(good, x="neg_none/std")], [d for d in rej if d["x"] == "neg_none/std"], "negctl")
+        return
+    if failed:
+        raise Broken("; ".join(failed))
     want = {"neg_nested/std", "neg_lost_munmap/std", "neg_lost_close/std", "neg_wrong_base/std", "neg_wrong_prot/std", "neg_no_flush/std", "neg_crash/std"}
     if rejected != want:
         raise Broken(f"trace-specification negative controls: rejected {sorted(rejected)}, expected {sorted(want)}")
@@ -531,6 +565,7 @@ def run(ctx):
     sysx = systematic_scripts(q)
     if not q:
         sysx += [dict(s, x=s["x"].replace("/", "+sticky/"), sticky=True, errnos="first") for s in sysx]
+    sysx += cycle_scripts(ctx.seed, q)
     total_beh, uniq_beh, behx = model_scripts(ctx, q, behs)
     rndx = random_scripts(ctx.seed, 300 if q else 4000)
     nshard = 4 if q else 6
